@@ -262,10 +262,14 @@ def _validator_loops(ctx):
         return
     f = fs[0]
     loops = [c for c in f.calls() if c.callee and c.callee["name"] == "next" and expr_tree(prog, f, c.args[0]) in ("into_iter(p1.emode_config.entries)", "into_iter(iter(p1.emode_config.entries))", "iter(p1.emode_config.entries)")]
+    # the same scan written with an iterator adaptor: `.iter().filter(|e| !e.is_empty())` skips exactly the empty slots
+    filt = [c for c in f.calls() if c.callee and c.callee["name"] == "next" and
+            re.fullmatch(r"(?:into_iter\()?filter\(iter\(p1\.emode_config\.entries\),closure\{not\(is_empty\(a2\)\)\}\)\)?", expr_tree(prog, f, c.args[0], inline=1))]
+    loops = loops + filt
     bad = [x for c in loops for x in loop_early_exits(prog, f, c.block)]
     ctx.inst("C13.R2", "emode/validator-visits-every-entry", len(loops) == 1 and not bad,
              "the per-entry checks run for every slot of emode_config.entries: the loop is left only when the iterator is exhausted or on an error",
              ["%s leaves the loop at %s" % (c, f.bloc(u)) for u, v, c in bad] or ("%d loops over the entries" % len(loops)), f.loc(f.raw["span"]))
     # empty entries are skipped, not validated: the skip edge returns to the loop header
     sk = [bi for bi, bb in enumerate(f.blocks) if bb["t"]["k"] == "switch" and switch_cond(prog, f, bi, "else").startswith("is_empty(next(")]
-    ctx.inst("C13.R2", "emode/validator-skips-only-empty", len(sk) == 1, "the only entries not validated are the empty ones (tag 0)", "%d is_empty tests" % len(sk), f.loc(f.raw["span"]))
+    ctx.inst("C13.R2", "emode/validator-skips-only-empty", len(sk) + len(filt) == 1, "the only entries not validated are the empty ones (tag 0)", "%d is_empty tests" % len(sk), f.loc(f.raw["span"]))
